@@ -95,30 +95,53 @@ def k_rule(a, scale, n=16, osc_step=3.0, floor=0.02):
     return composite_gl(b[b <= kmax], n)
 
 
-def r_rule(a, scale, n=16, osc_step=3.0, levels=20, support=None, extra=()):
-    """Rule for int_0^inf f(r) exp(-r^2/(4a)) dr-type integrals.
+def r_rule(a, scale, n=16, osc_step=3.0, r_floor=None, support=None):
+    """Rule for int_r1^inf f(r) exp(-r^2/(4a)) dr-type integrals; returns (r, w, r1).
 
-    Dyadic towards r = 0 (correlations behave like 1 - c r^beta there), uniform
-    panels of width osc_step*scale (hole-effect correlations), and - for a
-    compactly supported correlation - a break at the support radius with
+    Dyadic panels from the cut-off down to r1 <= r_floor (correlations behave
+    like 1 - c r^beta at the origin; on a panel [c, 2c] they are analytic),
+    uniform panels of width osc_step*scale (hole-effect correlations), and - for
+    a compactly supported correlation - a break at the support radius with
     grading towards it (square-root type behaviour of the circular model).
+    The innermost piece [0, r1] is left to the caller (see origin_bracket):
+    libraries clamp the correlation to 1 below some tiny lag, so it must not be
+    sampled there.
     """
     rmax = 2.0 * math.sqrt(a) * T_CUT
     if support is not None:
         rmax = min(rmax, support)
-    br = [dyadic(rmax, levels)]
+    if r_floor is None:
+        r_floor = 2e-8 * scale
+    levels = max(1, int(math.ceil(math.log2(rmax / r_floor))))
+    br = [rmax * 0.5 ** np.arange(levels, -1, -1)]
+    r1 = float(br[0][0])
     step = osc_step * scale
     if step < rmax:
         br.append(np.arange(1, int(rmax / step) + 1) * step)
     if support is not None and rmax >= support:
         br.append(graded_to(support, 0.5 * support, 24))
-    for e in extra:
-        if 0 < e < rmax:
-            br.append(graded_to(e, 0.5 * e, 12))
-            br.append(2 * e - graded_to(e, 0.5 * e, 12))
     b = np.concatenate(br)
-    b = b[(b >= 0) & (b <= rmax)]
-    return composite_gl(b, n)
+    b = b[(b >= r1) & (b <= rmax)]
+    r, w = composite_gl(b, n)
+    return r, w, r1
+
+
+def ball_volume(dim, r):
+    """Volume of the d-ball of radius r: int_0^r A_d s^(d-1) ds."""
+    return sphere_fac(dim) * r**dim / dim
+
+
+def origin_bracket(dim, a, r1, rho1):
+    """Bracket of (4 pi a)^(-d/2) int_{|r|<r1} rho exp(-r^2/4a) d^d r.
+
+    Uses only rho(r1) <= rho(r) <= 1 on [0, r1] (r1 is tiny against the
+    correlation length).  Returns (mid point, half width).
+    """
+    vol = ball_volume(dim, r1) / (4.0 * math.pi * a) ** (dim / 2.0)
+    g1 = math.exp(-r1 * r1 / (4.0 * a))
+    lo = vol * min(rho1, 1.0) * g1
+    hi = vol * 1.0
+    return 0.5 * (lo + hi), 0.5 * (hi - lo)
 
 
 def jacobi_rule(kmax, p, n=96):
@@ -151,108 +174,123 @@ def gauss_side_lhs(dim, a, k, w, dens):
 # pointwise radial Fourier transforms
 
 
-def _quad(f, lo, hi, **kw):
-    val, err = integrate.quad(f, lo, hi, limit=400, epsabs=0.0, epsrel=1e-12, **kw)
-    return val, err
+def _q(f, lo, hi, **kw):
+    return integrate.quad(f, lo, hi, limit=400, **kw)
 
 
-def ft_1d(rho, k, support=None, breaks=()):
-    """S(k) = 1/pi int_0^inf rho(r) cos(k r) dr, returns (value, error estimate)."""
-    hi = support if support is not None else np.inf
-    pts = sorted(b for b in breaks if 0 < b < (hi if np.isfinite(hi) else 1e300))
+def _fourier_half_line(f, k, kind, scale, support):
+    """int_0^inf f(r) cos|sin(k r) dr through QUADPACK's Fourier rules.
+
+    Finite part [0, R0] with QAWO (weight on a finite interval), the monotone
+    tail [R0, inf) with QAWF.  Returns (value, error estimate).
+    """
+    if support is not None:
+        v, e = _q(f, 0.0, support, weight=kind, wvar=k, epsabs=0.0, epsrel=1e-12)
+        return v, e
+    r0 = 30.0 * scale
+    v1, e1 = _q(f, 0.0, r0, weight=kind, wvar=k, epsabs=0.0, epsrel=1e-12)
+    scale_v = abs(v1) + 1e-300
+    v2, e2 = integrate.quad(
+        f, r0, np.inf, weight=kind, wvar=k, limit=400, limlst=400, epsabs=1e-13 * scale_v
+    )
+    return v1 + v2, e1 + e2
+
+
+def half_line_integral(f, scale, support):
+    """int_0^inf f(r) dr for a function living on ``scale`` (or on [0, support])."""
+    if support is not None:
+        return _q(f, 0.0, support, epsabs=0.0, epsrel=1e-12)
+    r0 = 30.0 * scale
+    v1, e1 = _q(f, 0.0, r0, epsabs=0.0, epsrel=1e-12, points=[scale])
+    v2, e2 = _q(f, r0, np.inf, epsabs=1e-13 * (abs(v1) + 1e-300), epsrel=1e-10)
+    return v1 + v2, e1 + e2
+
+
+def ft_1d(rho, k, scale, support=None):
+    """S(k) = 1/pi int_0^inf rho(r) cos(k r) dr; returns (value, error estimate)."""
     if k == 0.0:
-        if np.isfinite(hi):
-            v, e = integrate.quad(rho, 0, hi, limit=400, epsabs=0, epsrel=1e-12, points=pts or None)
-        else:
-            v, e = integrate.quad(rho, 0, np.inf, limit=400, epsabs=0, epsrel=1e-12)
-        return v / math.pi, e / math.pi
-    if np.isfinite(hi):
-        v, e = integrate.quad(rho, 0, hi, weight="cos", wvar=k, limit=400, epsabs=0, epsrel=1e-12)
+        v, e = half_line_integral(rho, scale, support)
     else:
-        v, e = integrate.quad(rho, 0, np.inf, weight="cos", wvar=k, limit=400, limlst=200, epsabs=1e-13)
+        v, e = _fourier_half_line(rho, k, "cos", scale, support)
     return v / math.pi, e / math.pi
 
 
-def ft_3d(rho, k, support=None):
+def ft_3d(rho, k, scale, support=None):
     """S(k) = 1/(2 pi^2 k) int_0^inf r rho(r) sin(k r) dr (k > 0),
-    S(0) = 1/(2 pi^2) int r^2 rho(r) dr."""
-    hi = support if support is not None else np.inf
+    S(0) = 1/(2 pi^2) int_0^inf r^2 rho(r) dr."""
     if k == 0.0:
-        v, e = integrate.quad(lambda r: r * r * rho(r), 0, hi, limit=400, epsabs=0, epsrel=1e-12)
-        return v / (2 * math.pi**2), e / (2 * math.pi**2)
-    f = lambda r: r * rho(r)  # noqa: E731
-    if np.isfinite(hi):
-        v, e = integrate.quad(f, 0, hi, weight="sin", wvar=k, limit=400, epsabs=0, epsrel=1e-12)
+        v, e = half_line_integral(lambda r: r * r * rho(r), scale, support)
+        c = 2.0 * math.pi**2
     else:
-        v, e = integrate.quad(f, 0, np.inf, weight="sin", wvar=k, limit=400, limlst=200, epsabs=1e-13)
-    c = 2 * math.pi**2 * k
+        v, e = _fourier_half_line(lambda r: r * rho(r), k, "sin", scale, support)
+        c = 2.0 * math.pi**2 * k
     return v / c, e / c
 
 
 def wynn_epsilon(s):
-    """Wynn's epsilon algorithm on a sequence of partial sums; returns the
-    last even-column estimate and the difference to the previous one."""
-    s = [float(v) for v in s]
-    n = len(s)
-    e_prev = [0.0] * (n + 1)
-    e_cur = list(s)
-    best, last = s[-1], s[-2] if n > 1 else s[-1]
+    """Wynn's epsilon algorithm on partial sums; returns (estimate, |change|
+    between the last two even columns reached)."""
+    e_prev = [0.0] * (len(s) + 1)
+    e_cur = [float(v) for v in s]
+    best = last = e_cur[-1]
     col = 0
     while len(e_cur) > 1:
         nxt = []
         for j in range(len(e_cur) - 1):
             d = e_cur[j + 1] - e_cur[j]
             if d == 0.0:
-                # converged to rounding: the sequence is stationary
-                return e_cur[j + 1], 0.0
+                return (e_cur[j + 1], 0.0) if col % 2 == 0 else (best, abs(best - last))
             nxt.append(e_prev[j + 1] + 1.0 / d)
         e_prev, e_cur = e_cur, nxt
         col += 1
-        if col % 2 == 0 and e_cur:
+        if col % 2 == 0:
             last, best = best, e_cur[-1]
     return best, abs(best - last)
 
 
-def ft_2d(rho_vec, k, support=None, scale=1.0, nzero=60, n=24):
-    """S(k) = 1/(2 pi) int_0^inf r rho(r) J0(k r) dr.
+def ft_2d(rho_vec, k, scale, support=None, nzero=120, n=24):
+    """S(k) = 1/(2 pi) int_0^inf r rho(r) J0(k r) dr; returns (value, error estimate).
 
-    k > 0: integration between consecutive zeros of J0 (Gauss-Legendre on each
-    interval, the first one graded towards the origin), the alternating series
-    of the contributions is summed with Wynn's epsilon algorithm.
-    ``rho_vec`` is evaluated on arrays.  Returns (value, error estimate).
+    k > 0: Gauss-Legendre between consecutive zeros of J0 (first interval graded
+    towards the origin, long intervals subdivided on the correlation scale); the
+    alternating series of the contributions is summed with Wynn's epsilon
+    algorithm when it has not died out.  ``rho_vec`` is evaluated on one array.
     """
     if k == 0.0:
-        hi = support if support is not None else np.inf
-        v, e = integrate.quad(lambda r: r * float(rho_vec(np.array([r]))[0]), 0, hi, limit=400, epsabs=0, epsrel=1e-12)
+        v, e = half_line_integral(lambda r: r * float(rho_vec(np.array([r]))[0]), scale, support)
         return v / (2 * math.pi), e / (2 * math.pi)
     zeros = special.jn_zeros(0, nzero) / k
     if support is not None:
-        zeros = zeros[zeros < support]
-        edges = np.concatenate(([0.0], zeros, [support]))
+        edges = np.concatenate(([0.0], zeros[zeros < support], [support]))
     else:
         edges = np.concatenate(([0.0], zeros))
-    terms = []
+    xs, ws, owner = [], [], []
     for i in range(len(edges) - 1):
         lo, hi = edges[i], edges[i + 1]
-        br = [lo, hi]
+        br = [np.array([lo, hi])]
         if i == 0:
-            br = list(dyadic(hi, 20))
-        # structure of rho at ``scale`` inside a long interval (small k)
+            br.append(dyadic(hi, 30)[1:])
         m = int((hi - lo) / (2.0 * scale))
-        if m > 0 and i > 0:
-            br = list(np.linspace(lo, hi, min(m, 200) + 2))
-        elif m > 0:
-            br = br + list(np.linspace(lo, hi, min(m, 200) + 2))
+        if m > 0:
+            br.append(np.linspace(lo, hi, min(m, 400) + 2))
         if support is not None and hi == support:
-            br = br + [b for b in graded_to(support, 0.5 * (hi - lo), 20) if b > lo]
-        x, w = composite_gl(br, n)
-        terms.append(float(np.sum(w * x * rho_vec(x) * special.j0(k * x))))
+            g = graded_to(support, 0.5 * (hi - lo), 24)
+            br.append(g[g > lo])
+        x, w = composite_gl(np.concatenate(br), n)
+        xs.append(x)
+        ws.append(w)
+        owner.append(np.full(x.size, i))
+    x = np.concatenate(xs)
+    w = np.concatenate(ws)
+    owner = np.concatenate(owner)
+    vals = w * x * np.asarray(rho_vec(x), dtype=float) * special.j0(k * x)
+    terms = np.bincount(owner, weights=vals, minlength=len(edges) - 1)
     sums = np.cumsum(terms)
-    if support is not None or len(sums) < 4:
-        return sums[-1] / (2 * math.pi), 0.0
+    c = 2 * math.pi
+    if support is not None or len(sums) < 8:
+        return sums[-1] / c, 1e-14 * np.abs(terms).sum() / c
     tail = np.abs(terms[-6:]).max()
-    if tail <= 1e-15 * max(np.abs(sums).max(), 1e-300):
-        return sums[-1] / (2 * math.pi), tail / (2 * math.pi)
-    # accelerate the tail only (start where the terms alternate regularly)
-    val, err = wynn_epsilon(sums[-21:])
-    return val / (2 * math.pi), err / (2 * math.pi)
+    if tail <= 1e-15 * np.abs(terms).max():
+        return sums[-1] / c, 1e-14 * np.abs(terms).sum() / c
+    val, err = wynn_epsilon(sums[-25:])
+    return val / c, (err + 1e-14 * np.abs(terms).sum()) / c
